@@ -371,7 +371,130 @@ def law_naive_twin(run, case):
                     input_class='probe:' + probe)
 
 
+def law_timespan_arith(run, case):
+    """timespans form a consistent arithmetic: + - unary, scaling by
+    integers is exact, division is its inverse, ordering is ordering of the
+    microsecond counts"""
+    t1, t2, n = mk_ts(case['t']), mk_ts(case['t2']), case['n']
+    u1, u2 = t1 // US, t2 // US
+    text = ('let(a => %s, b => %s, n => %d) -> [($a + $b).microseconds, '
+            '($a - $b).microseconds, (-$a).microseconds, (+$a) = $a, '
+            '($a * $n).microseconds, ($n * $a).microseconds, '
+            '$a < $b, $a <= $b, $a > $b, $a >= $b, $a = $b, '
+            '($a + $b) - $b = $a, isTimespan($a), isTimespan($n), '
+            'isDatetime($a), utctz() = timespan()]' % (
+                ts_expr(case['t']) if any(case['t']) else 'timespan()',
+                ts_expr(case['t2']) if any(case['t2']) else 'timespan()', n))
+    got = _get(run, case, 'timespan-arith', text)
+    if got is None:
+        return
+    exp = [u1 + u2, u1 - u2, -u1, True, u1 * n, u1 * n, u1 < u2, u1 <= u2,
+           u1 > u2, u1 >= u2, u1 == u2, True, True, False, False, True]
+    if list(got) != exp:
+        _fail(run, case, 'timespan-arith-wrong', '%s -> %r, expected %r' % (
+            text, list(got), exp))
+        return
+    if n != 0 and u2 != 0:
+        text2 = ('let(a => %s, b => %s, n => %d) -> [(($a * $n) / $n) = $a, '
+                 '$a / $b, (($a / $n) * $n - $a).microseconds]' % (
+                     ts_expr(case['t']) if any(case['t']) else 'timespan()',
+                     ts_expr(case['t2']), n))
+        got2 = _get(run, case, 'timespan-div', text2)
+        if got2 is None:
+            return
+        back, ratio, resid = got2
+        ok = back is True and isinstance(ratio, float) and \
+            abs(ratio - u1 / u2) <= 1e-12 * max(abs(u1 / u2), 1e-300) and \
+            abs(resid) <= abs(n)
+        if not ok:
+            _fail(run, case, 'timespan-div-wrong', '%s -> %r (a=%d us, '
+                  'b=%d us)' % (text2, list(got2), u1, u2))
+
+
+def law_format_parse(run, case):
+    """formatting a datetime and parsing the text back gives the same
+    instant and offset; a text without zone is UTC"""
+    f = case['d']
+    model = mk_dt(f, 'tzoffset')
+    if model.year < 1000:
+        run.exclude('strftime %Y is not zero padded below year 1000')
+        return
+    dx = dt_expr(f)
+    text = ("let(d => %s) -> [datetime($d.format('%%Y-%%m-%%dT%%H:%%M:%%S.%%f%%z'), "
+            "'%%Y-%%m-%%dT%%H:%%M:%%S.%%f%%z'), "
+            "datetime($d.format('%%Y-%%m-%%d %%H:%%M:%%S.%%f')), "
+            "datetime($d.format('%%Y-%%m-%%dT%%H:%%M:%%S.%%f%%z'))]" % dx)
+    got = _get(run, case, 'format-parse', text)
+    if got is None:
+        return
+    a, naive_text, iso = got
+    wall_utc = model.replace(tzinfo=dtm.timezone.utc)
+    ok = (isinstance(a, dtm.datetime) and to_us(a) == to_us(model) and
+          off_min(a) == off_min(model) and
+          isinstance(naive_text, dtm.datetime) and
+          naive_text.tzinfo is not None and
+          to_us(naive_text) == to_us(wall_utc) and off_min(naive_text) == 0
+          and to_us(iso) == to_us(model) and off_min(iso) == off_min(model))
+    if not ok:
+        _fail(run, case, 'format-parse-wrong', '%s -> %r; d is instant %d '
+              'at offset %d' % (text, got, to_us(model), off_min(model)))
+
+
+def law_replace(run, case):
+    f = case['d']
+    model = mk_dt(f, 'tzoffset')
+    h, o = case['h'], case['o']
+    dx, binds = _d(case)
+    model = mk_dt(f, 'naive' if case.get('tzkind') == 'naive'
+                  else 'tzoffset')
+    if model.tzinfo is None:
+        model = model.replace(tzinfo=dtm.timezone.utc)
+    text = ('let(d => %s) -> [$d.replace(hour => %d), $d.replace(offset => '
+            'timespan(minutes => %s)), $d.replace(year => 2001, month => 2, '
+            'day => 3, minute => 4, second => 5, microsecond => 6), '
+            '$d.date, $d.time, $d.weekday, $d.year, $d.month, $d.day, '
+            '$d.hour, $d.minute, $d.second, $d.microsecond, '
+            '$d.offset.microseconds, isDatetime($d)]' % (dx, h,
+                                                         common.lit(o)))
+    got = _get(run, case, 'replace', text, **binds)
+    if got is None:
+        return
+    r1, r2, r3, date, time, wd = got[:6]
+    e1 = model.replace(hour=h)
+    e2 = model.replace(tzinfo=dtm.timezone(dtm.timedelta(minutes=o)))
+    e3 = model.replace(year=2001, month=2, day=3, minute=4, second=5,
+                       microsecond=6)
+    edate = model.replace(hour=0, minute=0, second=0, microsecond=0)
+    ok = all(isinstance(x, dtm.datetime) for x in (r1, r2, r3, date)) and \
+        (to_us(r1), off_min(r1)) == (to_us(e1), off_min(e1)) and \
+        (to_us(r2), off_min(r2)) == (to_us(e2), off_min(e2)) and \
+        (to_us(r3), off_min(r3)) == (to_us(e3), off_min(e3)) and \
+        (to_us(date), off_min(date)) == (to_us(edate), off_min(edate)) and \
+        time == model - edate and wd == model.weekday() and \
+        list(got[6:]) == [model.year, model.month, model.day, model.hour,
+                          model.minute, model.second, model.microsecond,
+                          off_min(model) * 60 * 10 ** 6, True]
+    if not ok:
+        _fail(run, case, 'replace-or-fields-wrong', '%s -> %r' % (text, got))
+
+
+def law_now(run, case):
+    o = case['o']
+    got = _get(run, case, 'now', 'let(n => now(timespan(minutes => $o)), '
+               'u => now()) -> [$n.offset.microseconds, ($n - $u).seconds, '
+               '$u.offset.microseconds, isDatetime($n)]', o=o)
+    if got is None:
+        return
+    if got[0] != o * 60 * 10 ** 6 or abs(got[1]) > 60 or got[2] != 0 or \
+            got[3] is not True:
+        _fail(run, case, 'now-wrong', 'now(offset %d min) -> %r' % (o, got))
+
+
 LAWS = {
+    'timespan-arith': law_timespan_arith,
+    'format-parse': law_format_parse,
+    'replace-fields': law_replace,
+    'now': law_now,
     'timestamp-of-built': law_timestamp_of_built,
     'rebuild-from-timestamp': law_rebuild_from_timestamp,
     'timestamp-value': law_timestamp_value,
@@ -432,12 +555,28 @@ def cases(draw):
     if law == 'units':
         c['t'] = draw(span)
         return c
+    if law == 'timespan-arith':
+        c['t'] = draw(span)
+        c['t2'] = draw(span)
+        c['n'] = draw(st.integers(-5, 7))
+        return c
+    if law == 'now':
+        c['o'] = draw(offsets)
+        return c
+    if law == 'format-parse':
+        c['d'] = draw(dt_fields())
+        return c
     c['d'] = draw(dt_fields())
     c['spelling'] = draw(st.sampled_from(['expr', 'host']))
     if c['spelling'] == 'host':
         c['tzkind'] = draw(tzkinds)
         if c['tzkind'] == 'naive':
             c['d'][7] = 0
+    if law == 'replace-fields':
+        c['h'] = draw(st.integers(0, 23))
+        c['o'] = draw(offsets)
+        if c['d'][1] == 2 and c['d'][2] == 29:
+            c['d'][2] = 28
     if law in ('add-sub', 'naive-twin'):
         c['t'] = draw(span)
     if law in ('compare', 'naive-twin'):
